@@ -117,7 +117,7 @@ def run_c19(ctx, fa):
         while len(cases) < n and tries < 10 * n:
             tries += 1
             mode = rnd.random()
-            g = gen.Gen(rnd, logical=False, max_depth=rnd.choice([2, 3, 3, 4]), big=False, recursive=False, ns=mode < 0.75)
+            g = gen.Gen(rnd, logical=rnd.random() < 0.25, max_depth=rnd.choice([2, 3, 3, 4]), big=False, recursive=False, ns=mode < 0.75)
             g.letter_suffixes = True
             if mode < 0.75:
                 # every type lives in a namespace so that every reference can be spelled from everywhere
